@@ -199,6 +199,15 @@ func c19Systematic(tier string) []*Case {
 	for n := 2; n <= 4; n++ {
 		out = append(out, c19InputCase(n, []string{"first", "second line", "third", "4"}[:n], true, []string{"line", "all", "byte", "3byte"}, nil, "stored"))
 	}
+	// prompts are program text: a % in them is just a character
+	{
+		prog := lines(KwPrint+" \"[\" + "+FnInput+"(\"50% done? %d %s %\") + \"]\";", KwPrint+" "+FnInput+"(\"100%\");", KwPrint+" \"end\";")
+		cs := &Case{Prop: "C19", Kind: "input", Sig: "input:percent-prompt", Program: prog}
+		base := scriptCfg(prog, "yes\nno\n")
+		cs.Runs = []Run{{Role: "line", Cfg: withDelivery(base, "line")}, {Role: "all", Cfg: withDelivery(base, "all")}}
+		cs.ExpectStdout, cs.ExpectExit, cs.ExpectStderr = ptrS("50% done? %d %s %[yes]\n100%no\nend\n"), ptrI(0), "empty"
+		out = append(out, cs)
+	}
 	// outcome classes, one error kind each at first/middle/last position
 	for ek := 0; ek < len(c19Errors); ek++ {
 		for pos := 0; pos < 3; pos++ {
